@@ -384,6 +384,20 @@ func (a *nilAn) refineFieldInvariants() bool {
 func (a *nilAn) condNonNil(v ssa.Value, conds []core.Cond) bool {
 	vp, vok := core.Path(v)
 	for _, c := range conds {
+		// a boolean predicate of the package that answers the constant k whenever this argument is nil:
+		// on the edge where it answered !k the argument is not nil (`if r.IsValid() { return nil }; use r.Errors`)
+		if call, ok := c.Value.(*ssa.Call); ok {
+			if g := core.StaticCallee(call); g != nil && a.p.InSubject(g) {
+				for k, arg := range call.Call.Args {
+					if arg != v || k >= len(g.Params) {
+						continue
+					}
+					if ans, ok := nilAnswer(g, k); ok && ans != c.Sense {
+						return true
+					}
+				}
+			}
+		}
 		bo, ok := c.Value.(*ssa.BinOp)
 		if !ok || (bo.Op != token.EQL && bo.Op != token.NEQ) {
 			continue
@@ -424,6 +438,58 @@ func (a *nilAn) condNonNil(v ssa.Value, conds []core.Cond) bool {
 		}
 	}
 	return false
+}
+
+// nilAnswer: the boolean function g returns the same constant on every return that is reachable with its
+// k-th parameter nil, and every return not known to have that parameter non-nil... precisely: some return is
+// confined to "param k == nil" and returns the constant, and no other return can be reached with the parameter
+// nil (all other returns are in blocks where the parameter was tested non-nil).
+func nilAnswer(g *ssa.Function, k int) (bool, bool) {
+	if len(g.Blocks) == 0 || g.Signature.Results().Len() != 1 {
+		return false, false
+	}
+	if b, ok := g.Signature.Results().At(0).Type().Underlying().(*types.Basic); !ok || b.Kind() != types.Bool {
+		return false, false
+	}
+	prm := g.Params[k]
+	found, ans := false, false
+	for _, b := range g.Blocks {
+		ret, ok := b.Instrs[len(b.Instrs)-1].(*ssa.Return)
+		if !ok {
+			continue
+		}
+		if paramNilAt(prm, b) {
+			c, isC := ret.Results[0].(*ssa.Const)
+			if !isC || c.Value == nil {
+				return false, false
+			}
+			v := c.Value.ExactString() == "true"
+			if found && v != ans {
+				return false, false
+			}
+			found, ans = true, v
+			continue
+		}
+		// any other return must be on the non-nil side
+		nonNil := false
+		for _, cd := range core.CondsAt(b) {
+			if bo, ok := cd.Value.(*ssa.BinOp); ok {
+				var x ssa.Value
+				if core.IsNilConst(bo.Y) {
+					x = bo.X
+				} else if core.IsNilConst(bo.X) {
+					x = bo.Y
+				}
+				if x == ssa.Value(prm) && ((bo.Op == token.NEQ && cd.Sense) || (bo.Op == token.EQL && !cd.Sense)) {
+					nonNil = true
+				}
+			}
+		}
+		if !nonNil {
+			return false, false
+		}
+	}
+	return ans, found
 }
 
 func condsOnEdge(pred, succ *ssa.BasicBlock) []core.Cond {
